@@ -72,6 +72,7 @@ def check(prog, run):
                        "lexical grammar does not allow there" % (" ".join(ast.unparse(n).split()), meth))
 
     check_no_bulk_scan(prog, run, "L4")
+    check_no_stored_length(prog, run, "P3")
 
     # ---- K1 keyword comparisons guarded by a Name class test
     r = run.rule("K1", "every comparison of a token's .value with keyword text in the parser is guarded on its path by a "
@@ -398,6 +399,35 @@ def check_text_position_pairing(prog, run, rule_id):
 
 
 
+def check_no_stored_length(prog, run, rule_id):
+    """End of input is where indexing the decoded text fails, not where a remembered length says."""
+    lexer = prog.get_class(LEXER, "Lexer")
+    r = run.rule(rule_id, "Lexer methods decide the end of input by indexing the decoded text (IndexError), never by comparing the cursor "
+                          "with a length remembered at construction - unless that length is taken from the decoded text itself "
+                          "(`len(self._source)` after ensure_unicode): for a bytes source the remembered byte length exceeds the number of "
+                          "characters, and a scan bounded by it indexes past the text (IndexError instead of a syntax error)", 1)
+    init = lexer.find_method("__init__")
+    stored = {}
+    for n in own_nodes(init.node):
+        if isinstance(n, ast.Assign) and len(n.targets) == 1 and isinstance(n.targets[0], ast.Attribute) and isinstance(n.value, ast.Call) \
+                and isinstance(n.value.func, ast.Name) and n.value.func.id == "len" and n.value.args:
+            a = n.value.args[0]
+            decoded = isinstance(a, ast.Attribute) and a.attr == "_source"
+            stored[n.targets[0].attr] = decoded
+    r.instance("lengths remembered by Lexer.__init__: %s" % {k: ("of the decoded text" if v else "of the argument as given") for k, v in stored.items()})
+    seen = set()
+    for name, m in lexer.methods.items():
+        if id(m) in seen or m.name == "__init__":
+            continue
+        seen.add(id(m))
+        for n in own_nodes(m.node):
+            if isinstance(n, ast.Attribute) and isinstance(n.ctx, ast.Load) and n.attr in stored and not stored[n.attr] \
+                    and isinstance(n.value, ast.Name) and n.value.id == prog.self_name(m):
+                run.report(r, "%s:%s:bounded-by-undecoded-length(%s)" % (LEXER, m.qualname, n.attr), m.where(n),
+                           "%s reads self.%s, the length of the source as given (bytes are not decoded yet when it is taken): for a bytes "
+                           "source with a multi-byte character the scan runs past the decoded text" % (m.qualname, n.attr))
+
+
 def check_no_bulk_scan(prog, run, rule_id="L4"):
     lexer = prog.get_class(LEXER, "Lexer")
     # ---- L4 the cursor only moves over characters that were classified
@@ -420,6 +450,9 @@ def check_no_bulk_scan(prog, run, rule_id="L4"):
                     run.report(r, "%s:%s:bulk-scan(%s)" % (LEXER, m.qualname, " ".join(ast.unparse(n).split())), m.where(n),
                                "`%s` moves over source characters without classifying them: forbidden control characters inside the "
                                "skipped region are accepted and a lone CR no longer terminates it" % " ".join(ast.unparse(n).split()))
-                if isinstance(n.func.value, ast.Name) and n.func.value.id == "re":
+                compiled = isinstance(n.func.value, ast.Name) and n.func.attr in ("match", "search", "fullmatch", "finditer", "findall", "sub", "subn", "split") \
+                    and (lambda rr: bool(rr) and rr[0] == "assign" and isinstance(rr[1], ast.Call) and ast.unparse(rr[1].func) in ("re.compile", "compile"))(
+                        prog.resolve_name(m.module, n.func.value.id))
+                if compiled or (isinstance(n.func.value, ast.Name) and n.func.value.id == "re"):
                     run.report(r, "%s:%s:regex-scan(%s)" % (LEXER, m.qualname, " ".join(ast.unparse(n).split())), m.where(n),
                                "a regular expression scans the source in the lexer: its character classes are not checked against the lexical grammar")
